@@ -126,7 +126,7 @@ def py_traces(ctx, coders):
                              constants={"W": 32, "S": 64, "LB": 12}, invariants=["StateInv"], what="Python front end: %s coder" % coder, timeout=1500))
     ctx.validate_traces(jobs)
     for coder in coders:
-        for c in {"ans": ("py_enc_family_fast", "py_dec_iid_array", "py_from_binary", "py_seek", "py_seek_to_small_state", "py_model_fast_lazy", "py_model_leaky", "py_model_family_two_parameter_arrays"),
+        for c in {"ans": ("py_enc_family_fast", "py_dec_iid_array", "py_from_binary", "py_seek", "py_seek_to_small_state", "py_model_fast_lazy", "py_model_leaky", "py_model_leaky_via_ScipyModel", "py_model_family_two_parameter_arrays"),
                   "range": ("py_enc_steered", "py_dec_family_leaky", "py_seek", "py_dec_invalid_data", "py_exhausted_after_message"),
                   "symbol": ("py_stack_export_at_word_boundary", "py_queue_get_decoder_mid_stream", "py_queue_export_at_word_boundary", "py_stack_reimport", "py_book_f32", "py_queue_dec_out_of_data", "py_stack_enc_refused"),
                   "chain": ("py_restored_same", "py_restored_suffix", "py_restored_concat", "py_dec_out_of_data_single", "py_dec_iid_array_out_of_data", "py_ctor_compressed", "py_dec_family_fast")}.get(coder, ()):
